@@ -40,7 +40,7 @@ def work(args):
             mod.run(p, rep, "quick")
             viol, known = rep.evaluate()
             if viol:
-                res[pid] = ["VIOLATION " + f"{o.rule} {o.key.split('::')[-1]} | {o.detail[:140]}" for o in viol[:4]]
+                res[pid] = ["VIOLATION " + f"{o.rule} {o.key.split('::')[-1]} | {o.detail[:140]}" for o in viol[:12]]
         except AnalysisError as e:
             res[pid] = ["ANALYSIS-ERROR " + str(e)[:200]]
         except Exception:
